@@ -50,6 +50,19 @@ SW == UNION { UNION { { Scen(sz, {}, Start(sz, i) + j, <<i, j>>, FALSE) : j \in 
 \* a message of 65536 octets
 RF == { Scen(sz, {}, 0, <<>>, FALSE) : sz \in { <<TooBig>>, <<12, TooBig>>, <<TooBig, 12>>, <<65535, TooBig>>, <<TooBig, TooBig>>, <<TooBig, 65535>> } }
 
+\* runt frames (bodies shorter than a DNS header) before, between and behind real messages: framing does not depend on what
+\* a body holds, so the messages around a runt are delivered like any others
+RuntSizes == {0, 1, 2, 11}
+GoodSizes == {12, 13, 256, 4096, 65535}
+RS == { <<a, b>> : a \in RuntSizes, b \in GoodSizes } \cup { <<b, a>> : a \in RuntSizes, b \in GoodSizes }
+        \cup { <<a, c, b>> : a \in RuntSizes, c \in RuntSizes, b \in {12, 4096} }
+        \cup { <<a, b, c>> : a \in RuntSizes, b \in {12, 4096}, c \in {13, 256} }
+        \cup { <<b, a, c>> : a \in RuntSizes, b \in {12, 4096}, c \in {13, 256} }
+        \cup { <<a>> : a \in RuntSizes }
+RU == UNION { { Scen(sz, {}, Total(sz), <<>>, FALSE), Scen(sz, { x \in Interior(sz) : x < Total(sz) }, Total(sz), <<>>, FALSE) }
+               \cup (IF Total(sz) < 600 THEN { Scen(sz, {}, Total(sz), <<>>, TRUE) } ELSE {})
+               \cup { Scen(sz, {}, e, <<>>, FALSE) : e \in { x \in Pts(sz) : x < Total(sz) } } : sz \in RS }
+
 IdU == {"mine", "other", "other2"}
 Inboxes == UNION { [1..n -> IdU] : n \in 0..4 }
 IDS == { [tr |-> tr, inbox |-> ib, dl |-> d] : tr \in {"stream", "dgram"}, ib \in Inboxes, d \in 0..4 }
@@ -63,13 +76,22 @@ IDL == UNION { { [tr |-> tr, inbox |-> Stale(n) \o <<"mine">>, dl |-> n + 1],   
                  [tr |-> tr, inbox |-> Stale(n) \o <<"mine">> \o Stale(n), dl |-> 2 * n + 1] }
                : tr \in {"stream", "dgram"}, n \in ManyN }
 
+\* The rule looks at the ID: how the question is spelled plays no role.  "escaped": the query name is written with a
+\* redundant escape, the server echoes the same octets (the decoded reply prints another text); "lowered": the server echoes
+\* the name in lower case -- the same name.  A reader may ALSO want the question to be the same question (the letter of the
+\* statement does not ask for it; RFC 5452 9.1 does): replies to another question / without question are therefore not
+\* generated here                                                                                              \* AMBIG
+IDQ == { [tr |-> tr, inbox |-> ib, dl |-> Len(ib), q |-> q] :
+           tr \in {"stream", "dgram"}, ib \in { x \in Inboxes : Len(x) <= 2 } \cup { Stale(9) \o <<"mine">> }, q \in {"escaped", "lowered"} }
+
 Init ==
   \/ Mode = "frames1" /\ v \in F1
   \/ Mode = "frames2" /\ v \in { r \in F2 : r.unit \/ Hash(r) = Shard }
   \/ Mode = "eof"     /\ v \in { r \in EO : Len(r.sz) = 1 \/ r.unit \/ Hash(r) = Shard }
   \/ Mode = "shortw"  /\ v \in { r \in SW : Len(r.sz) = 1 \/ Hash(r) = Shard }
   \/ Mode = "refuse"  /\ v \in RF
-  \/ Mode = "id"      /\ v \in { r \in IDS : r.dl <= Len(r.inbox) } \cup IDL
+  \/ Mode = "runt"    /\ v \in { r \in RU : Hash(r) = Shard }
+  \/ Mode = "id"      /\ v \in { r \in IDS : r.dl <= Len(r.inbox) } \cup IDL \cup IDQ
   \/ Mode = "repoint" /\ v \in { [first |-> a, second |-> b, inbox |-> ib] : a \in Kinds, b \in Kinds, ib \in { <<"other", "mine">>, <<"mine">> } }
 Next == UNCHANGED v
 
@@ -85,7 +107,8 @@ StreamVector(r) ==
                  IF sz[i] > MaxBody THEN "refused"
                  ELSE IF r.sw # <<>> /\ r.sw[1] = i THEN "short"
                  ELSE IF r.sw # <<>> /\ r.sw[1] < i THEN "notattempted" ELSE "ok"],
-   delivered |-> res.delivered, final |-> res.final]
+   delivered |-> res.delivered, final |-> res.final,
+   hdr |-> HdrReader(ok, upto, 12)]      \* indices 1.. into the frames on the wire
 
 \* real transport kinds this case applies to, each with the results admitted for it (one, or two for an ambiguous kind)
 SetToSeq(S) == LET RECURSIVE F(_) F(T) == IF T = {} THEN <<>> ELSE LET e == CHOOSE e \in T : TRUE IN <<e>> \o F(T \ {e}) IN F(S)
@@ -93,6 +116,7 @@ IdVector(r) ==
   LET x == IdResult(r.tr, r.inbox, r.dl, "mine")
       ks == { k \in Kinds : r.tr \in KindRules[k] /\ (Cardinality(KindRules[k]) = 1 \/ r.tr = "dgram") } IN
   [kind |-> "id", transport |-> r.tr, inbox |-> r.inbox, dl |-> r.dl, res |-> x.res, idx |-> x.idx,
+   q |-> IF "q" \in DOMAIN r THEN r.q ELSE "plain",
    extend |-> MaxDeadlineExtensions,       \* how often the read deadline may be moved later once the request is written
    kinds |-> SetToSeq({ [k |-> k, admitted |-> SetToSeq({ IdResult(t, r.inbox, r.dl, "mine") : t \in KindRules[k] })] : k \in ks })]
 
